@@ -999,7 +999,7 @@ func (cxn *brokerCxn) requestAPIVersions(tries int) error {
 		// but we still doubly check it for sanity (as well as userMax, which
 		// can only be non-negative based off of LookupMaxKeyVersion's API).
 		userMax, exists := cxn.cl.cfg.maxVersions.LookupMaxKeyVersion(18) // 18 == api versions
-		if exists && userMax >= 0 {
+		if exists && userMax >= 0 && userMax < maxVersion {
 			maxVersion = userMax
 		}
 	}
